@@ -223,7 +223,7 @@ def read_frames(path):
     return frames
 
 
-def run_solver(tdgl, a, tmp, capture=None, dev=None):
+def run_solver(tdgl, a, tmp, capture=None, dev=None, opts=None):
     """-> (accepted?, frames, dev, error text).  With capture = {} the REAL TDGLSolver object of the run is stored in
     capture["solver"] (run-time wrapper on TDGLSolver.solve, DESIGN.md 4.1; arguments and results untouched)."""
     from tdgl.solver.solver import TDGLSolver
@@ -240,9 +240,16 @@ def run_solver(tdgl, a, tmp, capture=None, dev=None):
         os.chdir(work)
         if dev is None:
             dev = make_device(tdgl, a)
-        opts, kw = solve_args(tdgl, a, os.path.join(work, "out.h5"))
+        if opts is None:
+            opts, kw = solve_args(tdgl, a, os.path.join(work, "out.h5"))
+        else:
+            # an options OBJECT with a history (re-used by the caller): only the output location is pointed at this run's directory
+            _, kw = solve_args(tdgl, a, os.path.join(work, "out.h5"))
+            opts.output_file = os.path.join(work, "out.h5")
         try:
             sol = tdgl.solve(dev, opts, **kw)
+            if capture is not None:
+                capture["solution"] = sol
         except ValueError as e:
             if re.search(r"sum of all terminal currents", str(e)):
                 return False, [], dev, str(e)
@@ -292,7 +299,7 @@ def nums_of(a):
 # ---------------------------------------------------------------- C17
 
 
-def stationary_run(tdgl, a, tmp, dev=None):
+def stationary_run(tdgl, a, tmp, dev=None, opts=None):
     """undriven run: no field, no currents, epsilon = 1 (on the cached harness device of `a`, or on the given Device object)"""
     a = dict(a, field=0.0, currents=None)
     REQ_GAMMA = float(a.get("gamma", 10.0))                          # asked for through Layer(...), not read back
@@ -315,7 +322,7 @@ def stationary_run(tdgl, a, tmp, dev=None):
         a = dict(a, dt=dt, dt_max=dt * ratio, solve_time=a["solve_time"] * dt / dt0)
     cap = {}
     try:
-        ok, frames, dev, err = run_solver(tdgl, a, tmp, capture=cap, dev=dev)
+        ok, frames, dev, err = run_solver(tdgl, a, tmp, capture=cap, dev=dev, opts=opts)
     except RuntimeError as e:       # the solver gave up (retries / screening iterations exhausted) on the uniform state
         return {"cfg": {"adaptive": bool(a.get("adaptive", False)), "window": int(a.get("window", 3)), "driven": False,
                         "screening": bool(a.get("screening", False))},
@@ -503,6 +510,40 @@ def fresh_device(tdgl, kind="tee", points=48, xi=1.0, gamma=10.0):
     if kind == "cross":
         terms.append(tdgl.Polygon("bottom", points=box(1.5, 0.1, center=(0.3, -H / 2))))
     return tdgl.Device(kind, layer=layer, film=film, holes=[], terminals=terms, probe_points=[(-1.5, 0.0), (1.5, 0.0)], length_units="um")
+
+
+def stationary_options_history(tdgl, a, tmp):
+    """History on ONE SolverOptions object: it is first used with adaptive = False (a fixed-step solve, or just validate(), or it is the
+    options object of a fixed-step Solution loaded from its HDF5 file), then `options.adaptive = True` and the uniform state is solved
+    again.  The step clause of the observed (second) run is judged against the dt_init / dt_max LITERALS the harness constructed the
+    options with (a['dt'], a['dt_max']), kept outside the object."""
+    import shutil
+    import tempfile
+
+    a = dict(a, stable=False, field=0.0, currents=None, adaptive=True)
+    dev = make_device(tdgl, a)
+    work = tempfile.mkdtemp(prefix="opts", dir=tmp)
+    try:
+        opts, _ = solve_args(tdgl, dict(a, adaptive=False, solve_time=a.get("first_solve_time", 0.05)), os.path.join(work, "first.h5"))
+        how = a["options_history"]
+        if how == "fixed-step-solve":
+            tdgl.solve(dev, opts, applied_vector_potential=0.0)
+        elif how == "validate":
+            opts.validate()
+        elif how == "loaded-solution":
+            sol = tdgl.solve(dev, opts, applied_vector_potential=0.0)
+            opts = tdgl.Solution.from_hdf5(sol.path).options
+        else:
+            raise ValueError(how)
+        opts.adaptive = True
+        opts.solve_time = a["solve_time"]
+        t = stationary_run(tdgl, a, tmp, dev=dev, opts=opts)
+    finally:
+        shutil.rmtree(work, ignore_errors=True)
+    t["options_history"] = how
+    t["dt_literals"] = [a["dt"], a["dt_max"]]
+    t["steps_at_dt_max"] = sum(e["dts"].count("max") for e in t["ev"] if e.get("kind") == "stat")
+    return t
 
 
 def stationary_history(tdgl, a, tmp):
